@@ -20,6 +20,8 @@
 //!   C06  an intact tuple is rejected when the channel misroutes it (another mode's or pre-hash
 //!        function's endpoint), re-frames it (context || message split elsewhere) or presents the
 //!        formatted pre-hash input to the pure endpoint;
+//!   C07  over-long contexts are refused by signer and verifier, including replays whose length
+//!        aliases the original modulo 256, and every context of 0..255 bytes is accepted;
 //!   C13  no operation panics — in particular none on artefacts loaded from a faulted store or
 //!        delivered through a faulted channel (checked flavour: self-checks and overflow checks on).
 
@@ -116,6 +118,9 @@ pub enum Op {
     /// cross-protocol delivery: the formatted pre-hash input OID || PH(M) of a HashML-DSA tuple
     /// reaches the pure ML-DSA endpoint as if it were the message
     DeliverCross { t: usize },
+    /// replay of an intact tuple with an over-long context: kind 0 appends 256 zero bytes (same length
+    /// modulo 256), kind 1 appends 512 bytes, kind 2 replaces the context by 256 bytes, kind 3 by 257
+    DeliverLongCtx { t: usize, kind: u8 },
 }
 
 impl Op {
@@ -134,6 +139,7 @@ impl Op {
             Op::DeliverAs { .. } => "deliver_as_other_mode",
             Op::DeliverReframed { .. } => "deliver_reframed",
             Op::DeliverCross { .. } => "deliver_cross_protocol",
+            Op::DeliverLongCtx { .. } => "deliver_overlong_context",
         }
     }
     fn to_json(&self) -> Value {
@@ -152,6 +158,7 @@ impl Op {
             Op::DeliverAs { t, mode } => json!({"op":"deliver_as_other_mode","tuple":t,"mode":mode.name()}),
             Op::DeliverReframed { t, split } => json!({"op":"deliver_reframed","tuple":t,"split":split}),
             Op::DeliverCross { t } => json!({"op":"deliver_cross_protocol","tuple":t}),
+            Op::DeliverLongCtx { t, kind } => json!({"op":"deliver_overlong_context","tuple":t,"kind":kind}),
         }
     }
     fn from_json(v: &Value) -> Option<Op> {
@@ -171,6 +178,7 @@ impl Op {
             "deliver_as_other_mode" => Op::DeliverAs { t: u("tuple")?, mode: Mode::from_name(v["mode"].as_str()?)? },
             "deliver_reframed" => Op::DeliverReframed { t: u("tuple")?, split: u("split")? },
             "deliver_cross_protocol" => Op::DeliverCross { t: u("tuple")? },
+            "deliver_overlong_context" => Op::DeliverLongCtx { t: u("tuple")?, kind: v["kind"].as_u64()? as u8 },
             _ => return None,
         })
     }
@@ -392,8 +400,13 @@ pub fn execute(set: &dyn DynSet, xi: &[u8; 32], xi_other: &[u8; 32], ops: &[Op],
                     None => {}
                     Some(Err(e)) => {
                         if ctx.len() <= 255 && honest {
-                            finds.push(Finding { prop: "C01", invariant: "honest-sign-fails".into(), at_op: i, observed: format!("signing with honest replica `{prov}` returned Err({e:?})"), expected: "a signature".into() });
+                            for prop in ["C01", "C07"] {
+                                finds.push(Finding { prop, invariant: "honest-sign-fails".into(), at_op: i, observed: format!("signing ({}) with honest replica `{prov}` and a {}-byte context returned Err({e:?})", mode.name(), ctx.len()), expected: "a signature".into() });
+                            }
                         }
+                    }
+                    Some(Ok(_)) if ctx.len() > 255 => {
+                        finds.push(Finding { prop: "C07", invariant: "signer-accepts-overlong-context".into(), at_op: i, observed: format!("signing ({}) with a {}-byte context returned a signature", mode.name(), ctx.len()), expected: "Err".into() });
                     }
                     Some(Ok(sig)) => {
                         if honest {
@@ -455,7 +468,7 @@ pub fn execute(set: &dyn DynSet, xi: &[u8; 32], xi_other: &[u8; 32], ops: &[Op],
                 let s = &sks[src % sks.len()];
                 let _ = guard!(i, "PrivateKey::into_bytes", s.obj.to_bytes());
             }
-            Op::DeliverAs { .. } | Op::DeliverReframed { .. } | Op::DeliverCross { .. } => {
+            Op::DeliverAs { .. } | Op::DeliverReframed { .. } | Op::DeliverCross { .. } | Op::DeliverLongCtx { .. } => {
                 if tuples.is_empty() {
                     continue;
                 }
@@ -463,6 +476,7 @@ pub fn execute(set: &dyn DynSet, xi: &[u8; 32], xi_other: &[u8; 32], ops: &[Op],
                     Op::DeliverAs { t, .. } => (*t, "another mode's endpoint"),
                     Op::DeliverReframed { t, .. } => (*t, "another ctx/message boundary"),
                     Op::DeliverCross { t } => (*t, "the pure endpoint with the formatted pre-hash input as message"),
+                    Op::DeliverLongCtx { t, .. } => (*t, "the same endpoint with an over-long context"),
                     _ => unreachable!(),
                 };
                 let tu = &tuples[t % tuples.len()];
@@ -477,8 +491,10 @@ pub fn execute(set: &dyn DynSet, xi: &[u8; 32], xi_other: &[u8; 32], ops: &[Op],
                     Op::DeliverReframed { split, .. } => {
                         let mut cat = tu.ctx.clone();
                         cat.extend_from_slice(&tu.msg);
-                        let k = split % (cat.len().min(255) + 1);
-                        if k == tu.ctx.len() {
+                        // splits beyond 255 give an over-long context: the aliasing case of the length byte
+                        // split codes >= 10000 ask for the aliasing boundary |ctx| + 256*(code-9999)
+                        let k = if *split >= 10_000 { tu.ctx.len() + 256 * (split - 9_999) } else { split % (cat.len().min(600) + 1) };
+                        if k == tu.ctx.len() || k > cat.len() {
                             continue;
                         }
                         ctx = cat[..k].to_vec();
@@ -489,14 +505,24 @@ pub fn execute(set: &dyn DynSet, xi: &[u8; 32], xi_other: &[u8; 32], ops: &[Op],
                         msg = fm;
                         mode = Mode::Pure;
                     }
+                    Op::DeliverLongCtx { kind, .. } => match kind % 4 {
+                        0 => ctx.extend_from_slice(&[0u8; 256]),
+                        1 => ctx.extend_from_slice(&[0x5Au8; 512]),
+                        2 => ctx = vec![0u8; 256],
+                        _ => ctx = vec![0xA5u8; 257],
+                    },
                     _ => unreachable!(),
                 }
-                bump(&mut st.faults_fired, &format!("channel/{}", op.name()));
+                let c07 = ctx.len() > 255;
+                bump(&mut st.faults_fired, &format!("channel/{}{}", op.name(), if c07 && !matches!(op, Op::DeliverLongCtx { .. }) { "/overlong_ctx" } else { "" }));
                 for p in pks.iter() {
                     st.verifies += 1;
                     let Some(dec) = guard!(i, "verify", p.obj.verify(&msg, &tu.sig, &ctx, mode)) else { continue };
                     st.sigs.insert(format!("{}|{}|{}->{}|{}|{}", info.name, op.name(), tu.mode.name(), mode.name(), if p.honest { "honest" } else { "tainted" }, dec));
-                    if p.honest && tu.honest && dec {
+                    if c07 && dec {
+                        finds.push(Finding { prop: "C07", invariant: "verifier-accepts-overlong-context".into(), at_op: i, observed: format!("verification ({}) with a {}-byte context returned true (replica `{}`, original context {} bytes)", mode.name(), ctx.len(), p.prov, tu.ctx.len()), expected: "verification returns false".into() });
+                    }
+                    if p.honest && tu.honest && dec && !matches!(op, Op::DeliverLongCtx { .. }) {
                         finds.push(Finding { prop: "C06", invariant: format!("accepted:{}", op.name()), at_op: i, observed: format!("a {} signature for a {}-byte message and {}-byte context was accepted when delivered to {what} (as {}, message {} bytes, context {} bytes) by replica `{}`", tu.mode.name(), tu.msg.len(), tu.ctx.len(), mode.name(), msg.len(), ctx.len(), p.prov), expected: "verification returns false".into() });
                     }
                 }
@@ -634,8 +660,14 @@ pub fn gen_history(p: &mut Prng, set: &dyn DynSet) -> Vec<Op> {
         ops.push(op);
         // misrouting and framing faults of the channel (every run: they cost one verification each)
         let op = match p.below(12) {
+            3 => Op::DeliverLongCtx { t: p.usize_below(8), kind: p.below(4) as u8 },
+            4 if p.chance(1, 2) => {
+                let cl = *p.pick(&[256usize, 257, 300, 511, 512, 1000, 65_791]);
+                let ml = *p.pick(&MSG_LENS[..6]);
+                Op::Sign { sk: p.usize_below(8), msg: p.bytes(ml), ctx: p.bytes(cl), mode: *p.pick(&MODES), rnd: p.array32() }
+            }
             0 => Op::DeliverAs { t: p.usize_below(8), mode: *p.pick(&MODES) },
-            1 => Op::DeliverReframed { t: p.usize_below(8), split: if p.chance(1, 2) { p.usize_below(256) } else { p.usize_below(4) } },
+            1 => Op::DeliverReframed { t: p.usize_below(8), split: match p.below(5) { 0 => *p.pick(&[256usize, 257, 300, 512]), 1 => p.usize_below(4), 2 => 10_000 + p.usize_below(2), _ => p.usize_below(256) } },
             2 => Op::DeliverCross { t: p.usize_below(8) },
             _ => continue,
         };
@@ -644,6 +676,30 @@ pub fn gen_history(p: &mut Prng, set: &dyn DynSet) -> Vec<Op> {
     // close the history with deliveries to whatever replicas exist at the end
     ops.push(Op::Deliver { t: p.usize_below(8), fault: None });
     ops.push(Op::Deliver { t: p.usize_below(8), fault: None });
+    ops
+}
+
+/// A short, signature-free history: many more distinct keys per second than a full history, for
+/// defects that depend on a rare key (a coefficient that lands exactly on a boundary value).
+pub fn gen_short_history(p: &mut Prng, set: &dyn DynSet) -> Vec<Op> {
+    let info = set.info();
+    let mut ops = vec![
+        Op::PkDerive { src: 0 },
+        Op::PkToBytes { src: 1 },
+        Op::SkReload { src: 0, fault: None },
+        Op::PkDerive { src: 1 },
+        Op::PkToBytes { src: 2 },
+        Op::PkReload { src: p.usize_below(3), fault: None },
+        Op::SkToBytes { src: 1 },
+    ];
+    if p.chance(1, 2) {
+        ops.push(Op::SkReload { src: 0, fault: Some(gen_fault(p, info.sk_len, Some((128, info.sk_len)))) });
+        ops.push(Op::SkToBytes { src: 2 });
+        ops.push(Op::PkDerive { src: 2 });
+    } else {
+        ops.push(Op::PkReload { src: 0, fault: Some(gen_fault(p, info.pk_len, None)) });
+        ops.push(Op::PkToBytes { src: 4 });
+    }
     ops
 }
 
@@ -670,19 +726,30 @@ pub fn run(ctx: &Ctx) -> i32 {
         Some("C11") => "C11",
         Some("C13") => "C13",
         Some("C06") => "C06",
-        _ => harness_error("world: --prop C01|C06|C09|C11|C13 required"),
+        Some("C07") => "C07",
+        _ => harness_error("world: --prop C01|C06|C07|C09|C11|C13 required"),
     };
     let all = sets::sets();
     let n: u64 = match ctx.tier {
         Tier::Quick => ctx.scaled(5000),
         Tier::Thorough => ctx.scaled(if ctx.flavour == "checked" { 60_000 } else { 120_000 }),
     };
-    let outs = run_indexed(n as usize, ctx.workers, |i| {
-        let mut p = Prng::for_run(ctx.seed, "world", i as u64);
+    // second stratum: short signature-free histories over many more keys (provenance properties only)
+    let n_short: u64 = if matches!(prop, "C09" | "C11" | "C13") {
+        match ctx.tier {
+            Tier::Quick => ctx.scaled(15_000),
+            Tier::Thorough => ctx.scaled(300_000),
+        }
+    } else {
+        0
+    };
+    let outs = run_indexed((n + n_short) as usize, ctx.workers, |i| {
+        let short = (i as u64) >= n;
+        let mut p = Prng::for_run(ctx.seed, if short { "world-short" } else { "world" }, i as u64);
         let set = all[i % all.len()];
         let xi = p.array32();
         let xi_other = p.array32();
-        let ops = gen_history(&mut p, set);
+        let ops = if short { gen_short_history(&mut p, set) } else { gen_history(&mut p, set) };
         let mut stats = Stats::default();
         let mut out = RunOut { stats: Stats::default(), viols: Vec::new(), harness: None, sample: None, digest: 0 };
         match execute(set, &xi, &xi_other, &ops, &mut stats) {
@@ -756,6 +823,7 @@ pub fn run(ctx: &Ctx) -> i32 {
         "C01" => "an intact tuple signed by an honest private-key replica verifies under every honest public-key replica, whatever the provenance chain of either (generated, reloaded after restart any number of times, cloned, derived)",
         "C09" => "every artefact loaded from the store (intact or faulted) serialises back to the bytes it was loaded from; public keys always load; an honest reloaded private key signs byte-identically to the never-restarted reference for the same randomness; an honest reloaded public key decides like the reference on every delivered tuple, valid or faulted",
         "C06" => "an intact tuple is rejected by every honest public-key replica when it is misrouted to the endpoint of another mode or pre-hash function, when the concatenation context||message arrives split at any other boundary, and when the formatted pre-hash input OID||PH(M) of a HashML-DSA tuple is presented to the pure ML-DSA endpoint as the message",
+        "C07" => "signing with any context longer than 255 bytes (256, 257, 300, 511, 512, 1000, 65791) returns Err in every mode and with every replica, signing with every context of 0..255 bytes succeeds, and an intact tuple replayed with an over-long context - the original extended by 256 or 512 bytes (same length modulo 256), replaced by 256 or 257 bytes, or re-framed so that more than 255 leading bytes of context||message are presented as the context - is rejected by every replica",
         "C11" => "a public key derived from an honest private-key replica (generated or reloaded) serialises to the generated key's bytes and decides like the generated reference on every delivered tuple, valid or faulted",
         _ => "no operation of any history panics, including every operation on private/public keys loaded from a faulted store and on tuples delivered through a faulted channel (checked flavour: library self-checks and integer-overflow checks armed)",
     };
@@ -763,11 +831,11 @@ pub fn run(ctx: &Ctx) -> i32 {
         level: "exploration",
         evaluations: tot.ops,
         signatures: tot.sigs.into_iter().collect(),
-        rule: format!("Seeded histories of 10..28 operations over replicas of one logical key pair: sign (4 modes; message lengths incl. 0, SHAKE rate boundaries, multi-block; context lengths incl. 0, 254, 255), deliver to every public-key replica alive (channel faults on signature, message or context), persist+reload of private and public keys through a store that injects bit rot, stuck-at bytes, lost and torn writes, derive, clone, serialise, and party restarts that drop every in-memory replica. Per-run fault rate (0..60%) and operation mix vary (swarm). A never-restarted generated pair is the executable reference model. Oracle for {prop}: {oracle}. A case is distinct by (set, operation, mode, replica kind, provenance depth, honest/tainted, intact/faulted, outcome, length classes)."),
+        rule: format!("Seeded histories of 10..28 operations over replicas of one logical key pair: sign (4 modes; message lengths incl. 0, SHAKE rate boundaries, multi-block; context lengths incl. 0, 254, 255), deliver to every public-key replica alive (channel faults on signature, message or context), persist+reload of private and public keys through a store that injects bit rot, stuck-at bytes, lost and torn writes, derive, clone, serialise, and party restarts that drop every in-memory replica. Per-run fault rate (0..60%) and operation mix vary (swarm). For C09/C11/C13 a second stratum of short signature-free histories (derive, reload, serialise, one storage fault) runs over many more distinct keys. A never-restarted generated pair is the executable reference model. Oracle for {prop}: {oracle}. A case is distinct by (set, operation, mode, replica kind, provenance depth, honest/tainted, intact/faulted, outcome, length classes)."),
         samples,
         exhaustive: false,
         extra: json!({
-            "histories": n, "runs": n,
+            "histories": n, "short_histories": n_short, "runs": n + n_short,
             "runs_per_hour": if wall > 0.0 { (n as f64 / wall * 3600.0) as u64 } else { 0 },
             "operations": tot.ops, "signatures_made": tot.signs, "verifications": tot.verifies,
             "loads_from_store": tot.loads, "loads_rejected": tot.rejected_loads, "restarts": tot.restarts,
